@@ -18,6 +18,7 @@ func init() {
 	register("S2", "stream reads of frame headers and bodies are exact-length: io.ReadAtLeast/ReadFull read len(buffer) bytes into a buffer allocated with the declared length", 5, ruleS2)
 	register("S3", "a datagram's body is taken only from the bytes actually received: the declared length is compared with the count returned by the read and the copy out of the reused buffer is bounded", 4, ruleS3)
 	register("S4", "makeHeader and parseHeader of each transport place index, length and checksum at the same byte positions with the same shifts and checksum the same sub-slice; parseHeader's failure result is tested before length/index are used", 9, ruleS4)
+	register("S6", "a payload copied into a fixed-size datagram buffer is checked against the buffer's capacity first (copy silently truncates): the length declared in the header always equals the bytes actually sent", 2, ruleS6)
 	register("S5", "the too-large condition is signalled and recognised with the same constants on both sides (core.RequestEntityTooLarge marker / ErrRequestEntityTooLarge / HTTP 413)", 6, ruleS5)
 }
 
@@ -666,5 +667,70 @@ func ruleS5(r *Run) {
 	for _, tr := range []string{"rpc/socket", "rpc/udp", "rpc/websocket"} {
 		r.Check(uses(tr, "Handler.send", marker) && uses(tr, "Handler.send", errObj), "handler signals too-large in-band "+tr, 0, "Handler.send maps ErrRequestEntityTooLarge to the marker", "Handler.send no longer maps ErrRequestEntityTooLarge to the core.RequestEntityTooLarge marker")
 		r.Check(uses(tr, "conn.receive", marker) && uses(tr, "conn.receive", errObj), "client maps marker back "+tr, 0, "conn.receive maps the marker to ErrRequestEntityTooLarge", "conn.receive no longer recognises the core.RequestEntityTooLarge marker: the caller gets a generic invalid-response error instead of request-too-large")
+	}
+}
+
+// ---------------------------------------------------------------------------------------
+// S6
+
+func ruleS6(r *Run) {
+	p := r.P
+	for _, s := range []struct{ pkg, fn string }{{"rpc/udp", "Handler.send"}, {"rpc/udp", "conn.send"}} {
+		key := "payload fits the datagram buffer in " + s.pkg + "." + s.fn
+		fd, pkg := p.DeclOf(s.pkg, s.fn)
+		if fd == nil {
+			r.Undec(key, 0, "function not found")
+			continue
+		}
+		info := pkg.TypesInfo
+		// copy(buffer[k:], payload) into a byte ARRAY with k > 0
+		var cp *ast.CallExpr
+		var bufObj types.Object
+		ast.Inspect(fd.Body, func(n ast.Node) bool {
+			call, ok := n.(*ast.CallExpr)
+			if !ok || !IsBuiltin(info, call, "copy") || len(call.Args) != 2 {
+				return true
+			}
+			se, ok := ast.Unparen(call.Args[0]).(*ast.SliceExpr)
+			if !ok || se.Low == nil {
+				return true
+			}
+			if _, isArr := info.TypeOf(se.X).Underlying().(*types.Array); !isArr {
+				return true
+			}
+			if _, isArrSrc := info.TypeOf(call.Args[1]).Underlying().(*types.Slice); isArrSrc {
+				cp, bufObj = call, identObj(info, se.X)
+			}
+			return true
+		})
+		if cp == nil {
+			r.Undec(key, fd.Pos(), "copy of the payload into the datagram buffer not found")
+			continue
+		}
+		payload := types.ExprString(cp.Args[1])
+		guarded := false
+		ast.Inspect(fd.Body, func(n ast.Node) bool {
+			ifs, ok := n.(*ast.IfStmt)
+			if !ok || ifs.Pos() > cp.Pos() {
+				return true
+			}
+			mPayload, mBuf := false, false
+			ast.Inspect(ifs.Cond, func(m ast.Node) bool {
+				if c, ok := m.(*ast.CallExpr); ok && IsBuiltin(info, c, "len") {
+					if types.ExprString(c.Args[0]) == payload {
+						mPayload = true
+					}
+					if identObj(info, c.Args[0]) == bufObj {
+						mBuf = true
+					}
+				}
+				return true
+			})
+			if mPayload && mBuf {
+				guarded = true
+			}
+			return true
+		})
+		r.Check(guarded, key, cp.Pos(), "len(payload) compared with len(buffer) before the copy", fmt.Sprintf("%s is copied into the fixed datagram buffer without a preceding check of len(%s) against the buffer: copy truncates silently (or the slice of the buffer panics), so a message is sent shorter than its header declares", payload, payload))
 	}
 }
